@@ -176,6 +176,14 @@ def update_trace(m, path, fr, env, outcome, value, exc):
     elif body_raised:
         path.oblige(m.oblname("lock_released_and_nothing_written_when_the_body_raises"),
                     z3.BoolVal(names == ["enter_lock", "read", "yield", "body_raised", "exit_lock"]), kind="trace", assume_after=False)
+    # an updater never removes a lock file: while someone holds it, deleting it lets two critical sections overlap
+    unl = [e for e in ev if e[0] in ("unlink", "unlink_start") and isinstance(e[1], StrSeq) and e[1].parts and e[1].parts[-1] == ".lock"]
+    path.oblige(m.oblname("never_deletes_a_lock_file"), z3.BoolVal(not unl), kind="trace", assume_after=False)
+    # it enters the critical section only through a successful acquisition (never after a timed-out wait)
+    if "read" in names:
+        before = ev[:[i for i, e in enumerate(ev) if e[0] == "call" and e[1].endswith("PyramidIO.read_image")][0]]
+        acq = [i for i, e in enumerate(before) if e[0] == "enter" and e[1] == "lock"]
+        path.oblige(m.oblname("reads_only_while_holding_the_lock"), z3.BoolVal(bool(acq)), kind="trace", assume_after=False)
     # the lock key is a function of the tile only: tile_path(pos) in the default format + '.lock'
     locks = [e for e in ev if e[0] == "enter" and e[1] == "lock"]
     tps = [e for e in ev if e[0] == "call" and e[1].endswith("PyramidIO.tile_path")]
@@ -206,4 +214,5 @@ def _(c):
     c.may_raise("BodyError", "an exception of the caller's with-body propagates")
     c.may_raise("IOError", "propagated from read_image")
     c.may_raise("ValueError", "propagated from read_image")
+    c.may_raise("Timeout", "a bounded wait for the lock may give up (never observed on the pinned tree: it waits without bound)")
     c.on_path(update_trace)
